@@ -79,7 +79,8 @@ type Sched struct {
 	proSteps        int
 	final           func(x *Exec)
 	finalStarted    bool
-	joinTok         int // see runThread / startFinal
+	Diverged        bool
+	joinTok         int  // see runThread / startFinal
 	FinalRan        bool // the final observation ran to its end inside the execution
 	FinalStuck      bool // it was started and could not finish (it blocked for ever)
 	abortFn         func() bool
@@ -253,6 +254,15 @@ func (s *Sched) runThread(t *Thread, f func()) {
 		}
 		buf := make([]byte, 4096)
 		buf = buf[:runtime.Stack(buf, false)]
+		if msg, ok := r.(string); ok && strings.HasPrefix(msg, "vrt: replay divergence") {
+			// the prefix that is being replayed does not fit this run: the code under test (or something it
+			// uses) is not a function of the schedule - e.g. it hashes the address of a stack variable. The
+			// run is abandoned and counted; it says nothing about the property.
+			s.Diverged = true
+			t.done = true
+			s.finish()
+			return
+		}
 		s.Panic = fmt.Sprint(r)
 		s.Trace = append(s.Trace, fmt.Sprintf("T%d PANIC %v\n%s", t.ID, r, trimStack(string(buf))))
 		t.done = true
@@ -438,7 +448,10 @@ func (s *Sched) switchFrom(t *Thread) {
 		if s.unheld == 1 && !t.done && t.pend != nil && t.pend.ch == nil && (t.pend.Ready == nil || t.pend.Ready()) && s.proSteps < 200000000 {
 			return
 		}
-	} else {
+	} else if len(s.Points) >= len(s.prefix) {
+		// (steps are counted once the replayed prefix is used up: the budget judges what happens under the
+		// fair default continuation - an explorer that keeps choosing one of two spinning threads over the
+		// thread they wait for builds an ever longer unfair prefix, which is no livelock of the code)
 		s.Steps++
 	}
 	if s.Steps > s.maxSteps || s.proSteps > 200000000 {
@@ -558,7 +571,7 @@ retry:
 	n := enabled[0]
 	if len(enabled) > 1 {
 		fc := 1 // switching away from a thread that can continue is a preemption
-		if !runEnabled && (!s.delay || s.afterPrologue) {
+		if !runEnabled && (!s.delay || s.afterPrologue) && !yielding {
 			fc = ordinary // a forced switch is free among ordinary threads; an environment event costs
 			if ordinary == 0 {
 				fc = len(enabled) // nothing else can run: the environment event is forced
@@ -944,6 +957,7 @@ func Self() int {
 
 // Exec is the outcome of one execution.
 type Exec struct {
+	Diverged             bool // a replayed prefix did not fit (nondeterminism outside the scheduler's control); nothing is judged
 	FinalRan, FinalStuck bool // see Sched.SetFinal
 	TimedOut             bool // abandoned because RunConfig.Abort said so (nothing about it is judged)
 	Choices              []int
@@ -1010,7 +1024,7 @@ func Run(cfg RunConfig, body func(s *Sched)) *Exec {
 	s.wg.Wait()
 	cur = nil
 	raceJoin()
-	x := &Exec{FinalRan: s.FinalRan, FinalStuck: s.FinalStuck, TimedOut: s.TimedOut, Points: s.Points, Deadlock: s.Deadlock, Blocked: s.Blocked, Panic: s.Panic, Livelock: s.Livelock, Pruned: s.Pruned, Steps: s.Steps, Trace: s.Trace, NoBlockViolated: s.NoBlockViolated}
+	x := &Exec{Diverged: s.Diverged, FinalRan: s.FinalRan, FinalStuck: s.FinalStuck, TimedOut: s.TimedOut, Points: s.Points, Deadlock: s.Deadlock, Blocked: s.Blocked, Panic: s.Panic, Livelock: s.Livelock, Pruned: s.Pruned, Steps: s.Steps, Trace: s.Trace, NoBlockViolated: s.NoBlockViolated}
 	x.Choices = make([]int, len(s.Points))
 	for i, p := range s.Points {
 		x.Choices[i] = p.Chosen
